@@ -177,6 +177,73 @@ fn run_c09(b: &[u8], t: Tier) -> Outcome {
     outcome(r, nt)
 }
 
+#[cfg(cormacrelf_incremental_rs_verif)]
+fn audit_hook(st: &incremental::IncrState, quiescent: bool) -> Vec<String> {
+    st.verif_audit(quiescent)
+}
+#[cfg(not(cormacrelf_incremental_rs_verif))]
+fn audit_hook(_st: &incremental::IncrState, _quiescent: bool) -> Vec<String> {
+    vec!["harness built without --cfg cormacrelf_incremental_rs_verif: no audit available".into()]
+}
+fn run_c11(b: &[u8], t: Tier) -> Outcome {
+    let r = run_case(&prof_c11(t), b, Some(audit_hook));
+    let c = &r.classes;
+    let nt = c.obs_removed > 0 && c.bind_reruns > 0 && c.unsubscribed > 0 && c.audits >= 5;
+    outcome(r, nt)
+}
+
+pub fn prof_c13(t: Tier) -> Profile {
+    let mut p = Profile::base("c13");
+    p.subscriptions = true;
+    p.handler_actions = true;
+    p.weird_cutoffs = true;
+    p.max_actions = 30;
+    let mut p = sized(p, t);
+    if t == Tier::Thorough {
+        p.max_actions = 60;
+        p.max_nodes = 20;
+    }
+    p
+}
+fn run_c13(b: &[u8], t: Tier) -> Outcome {
+    use crate::engine::run_case_fault;
+    let prof = prof_c13(t);
+    let base = run_case_fault(&prof, b, None, None);
+    let n = base.ticks;
+    let mut failures: Vec<crate::model::Failure> = vec![];
+    let mut sub = 0u64;
+    let mut trace = base.trace.clone();
+    if base.panic.is_none() && base.classes.gave_up.is_none() && !base.classes.discarded {
+        let ks: Vec<u64> = if t == Tier::Thorough {
+            (0..n.min(64)).collect()
+        } else if n <= 12 {
+            (0..n).collect()
+        } else {
+            (0..12).map(|i| i * n / 12).collect()
+        };
+        for k in ks {
+            let r = run_case_fault(&prof, b, None, Some(k));
+            sub += 1;
+            let mine: Vec<_> = r.failures.into_iter().filter(|f| f.prop == "C13" || f.prop == "C04").collect();
+            if !mine.is_empty() && failures.is_empty() {
+                trace = r.trace.clone();
+                trace.insert(0, format!("[panic injected at user-function invocation #{k} of {n}]"));
+                for f in mine {
+                    // a panic out of the final drop is C13's business here
+                    let (clause, msg) = if f.prop == "C04" { ("second-panic", format!("after the caught panic: {}", f.msg)) } else { (f.clause, f.msg) };
+                    failures.push(crate::model::Failure { prop: "C13", clause, msg: format!("fault #{k}: {msg}") });
+                }
+            }
+        }
+    }
+    let c = &base.classes;
+    let nt = n >= 4 && c.value_changed_reads >= 2 && sub > 0;
+    let mut o = outcome(CaseResult { failures, ..base }, nt);
+    o.trace = trace;
+    o.sub_evaluations = sub;
+    o
+}
+
 const ENGINE_ASSUMPTIONS: &[&str] = &[
     "the reference model (harness/src/model.rs) and the from-scratch evaluator are trusted",
     "generated programs respect the documented rules (DESIGN.md 3.5): no use of a bind-created node while its bind is unnecessary, acyclic, one state, pure node functions",
@@ -202,7 +269,7 @@ macro_rules! engine_spec {
 }
 
 pub fn all_ids() -> Vec<&'static str> {
-    vec!["C01", "C02", "C03", "C04", "C05", "C06", "C07", "C08", "C09"]
+    vec!["C01", "C02", "C03", "C04", "C05", "C06", "C07", "C08", "C09", "C10", "C11", "C13"]
 }
 
 pub fn spec(id: &str) -> Option<PropSpec> {
@@ -270,11 +337,42 @@ pub fn spec(id: &str) -> Option<PropSpec> {
             [600_000, 20_000_000],
             false
         ),
+        "C11" => engine_spec!(
+            "C11",
+            run_c11,
+            "cases = C04's engine language (all cutoffs, subscriptions, observer churn, binds, exported inner nodes) with IncrState::verif_audit() called after every single action; non-trivial = an observer was removed, a bind re-ran (heights adjusted / edges swapped), a subscription was removed, and at least 5 audits ran; distinct = distinct decoded action trace",
+            [300_000, 8_000_000],
+            false
+        ),
+        "C10" => PropSpec {
+            id: "C10",
+            level: "exploration",
+            rule: "cases = strings over 17 letters {observe, per observer: clone, drop one handle, disallow, subscribe, unsubscribe own token, unsubscribe with the other observer's token, state.unsubscribe; stabilise; write} acting on two observers of one node, every handle read after every letter; ALL strings up to length 4 (quick) / 6 (thorough) are enumerated, plus random strings up to length 25; non-trivial = a handle was cloned, one lifecycle was ended (drop/disallow), and a surviving clone or the sibling observer was used afterwards; distinct = distinct letter string",
+            cases: [200_000, 4_000_000],
+            len: [25, 25],
+            run: crate::c10::run_c10,
+            exhaustive: Some(crate::c10::exhaustive_c10),
+            assumptions: &[
+                "lifecycle state machine and per-subscription notification model of the harness are trusted",
+                "two observers on one shared node; more observers and nodes are covered by the random C09/C11 profiles only",
+                "state.unsubscribe on an observer that has not been through a stabilise yet is not exercised (no claim in the property)",
+            ],
+            both_builds_quick: false,
+            abort_is_violation: false,
+        },
+        "C13" => PropSpec {
+            id: "C13",
+            level: "fault_enumeration",
+            rule: "cases = generated programs+histories (subscriptions, handler actions, all cutoff kinds); each is first run fault-free to count the N invocations of user functions (node functions, bind closures, cutoff functions, update handlers), then re-executed from scratch with a panic injected at invocation k for every k (thorough: all k < min(N,64); quick: all k if N <= 12, else 12 evenly spaced k); non-trivial = N >= 4 and at least two observed values changed somewhere in the fault-free run (a mixed snapshot was possible); distinct = distinct decoded action trace; fault_injected_or_nested_evaluations counts the faulted runs",
+            cases: [30_000, 400_000],
+            len: [160, 300],
+            run: run_c13,
+            exhaustive: None,
+            assumptions: ENGINE_ASSUMPTIONS,
+            both_builds_quick: true,
+            abort_is_violation: true,
+        },
         _ => return None,
     })
 }
 
-/// replay of a failure found by an exhaustive enumeration (file lists the enumerated case)
-pub fn replay_exhaustive(_spec: &PropSpec, _path: &std::path::Path, _verbose: bool) -> Vec<crate::model::Failure> {
-    vec![]
-}
